@@ -96,7 +96,7 @@ def main():
         })
     m = {
         "version": 1,
-        "setup_cmd": "cd /verif && python3 tools/gen_sched.py && python3 tools/gen_grid.py && python3 tools/gen_dup.py && cd mc && CARGO_NET_OFFLINE=true cargo build --release --offline 2>&1 | tail -3 && cd /verif && python3 tools/build_nodebug.py",
+        "setup_cmd": "cd /verif && python3 tools/gen_sched.py && python3 tools/gen_grid.py && python3 tools/gen_dup.py && cd mc && CARGO_NET_OFFLINE=true cargo build --release --offline 2>&1 | tail -3 && cd /verif && python3 tools/build_nodebug.py && cd /verif/mc && CARGO_TARGET_DIR=/verif/target/miri CARGO_NET_OFFLINE=true cargo +nightly miri run --offline -q -p mcmiri -- 0 r0 | tail -1",
         "hooks": {
             "guard": "--cfg brood_verif",
             "enable": "RUSTFLAGS=--cfg brood_verif via /verif/mc/.cargo/config.toml (brood is a path dependency of the harness workspace, rebuilt from /repo's working tree)",
